@@ -17,14 +17,19 @@ RULE = ("hand-written catalogue (label boundary at depth, longest rule / inserti
         "an exhaustive case sweep: for each of the 26 letters and for the range neighbours '@'/'`' and '['/'{' a rule and a name that differ "
         "only in that one byte, both directions, every rule type, through MixMatcher, the single matchers, hosts and domain_set; "
         "single-type rule sets (full only / domain only / regexp only / keyword only, exps only / file only) through domain_set.NewDomainSet "
-        "and the qname matcher) "
+        "and the qname matcher; sets of sets built with coremain.NewTestMosdnsWithPlugins (own rules + referenced sets, two referenced sets, "
+        "nested and shared references, a dropped own matcher) consumed through GetDomainMatcher().Match and through qname '$tag'; full/domain "
+        "pairs covering the same name with different values in every insertion order through MixMatcher, hosts and redirect (entries / file / "
+        "both); case-sensitive rule text (regexps A and ^\\D, type prefixes FULL: / Domain:) through every loader) "
         "followed by seeded random rule sets over the label alphabet {a, b, ab} plus boundary labels (z, zz, az, m, y, a@, a`, a[, a{) "
         "(depth <= 5, all four types, default type, duplicates with other case / dot / value, nested suffixes; case flips per letter, "
         "independently, mostly a single letter and preferably a boundary letter) x names derived from the rules (itself, subdomain, glued "
         "string suffix, parent, case-flipped, '@'<->'`' / '['<->'{' confused) "
         "through MixMatcher.Add/Match, the four single matchers, domain.Load/LoadFromTextReader, domain_set.NewDomainSet (exps + file), "
         "qname.QuickSetup -> base_domain.NewMatcher (exps + &file), plugin hosts.NewHosts + Response and redirect.NewRedirect + Exec, "
-        "half of the provider cases with rule sets of one type only; plus a separate malformed stream (empty labels, '..', bad type "
+        "half of the provider cases with rule sets of one type only; random compositions of 2..6 domain_set plugins referencing earlier ones "
+        "(0..3 references each, nesting, members optionally marked with a label of their own) with one query name derived from every reachable "
+        "member, consumed via GetDomainMatcher, qname '$tag' and qname 'exps $tag'; full/domain counterpart rules with other values; plus a separate malformed stream (empty labels, '..', bad type "
         "names, no default). A case is non-trivial when for some query at least two rules describe the name or a domain rule is a string "
         "suffix of the name without being a label suffix; distinct = distinct Gallina literal")
 ASSUMPTIONS = [
@@ -50,7 +55,8 @@ LEVEL_TEXT = ("Theorems in coq/Properties/C12.v, for all rule lists, all default
               "written (c12_regexp_iff); value precedence full > domain > regexp > keyword (c12_mix_value_precedence); normalisation, the "
               "index-level reverse scanner (c12_scanner_general, no fuel exhaustion), first-colon split and default type, the text loader, and "
               "Len() > 0 for every set with one accepted rule of any type other than the root domain, so domain_set / base_domain keep it "
-              "(c12_nonempty_set_is_kept). "
+              "(c12_nonempty_set_is_kept); a set assembled from members matches iff some rule of some member describes the name "
+              "(c12_group_iff, c12_set_of_sets). "
               "The same model functions are run inside Coq on every observation of the real matchers, loaders and plugin constructors.")
 LEVEL_NOTE = ("Trusted: Coq kernel + vm_compute; hand-written model tied to the code by the differential run; Go's regexp as an arbitrary "
               "function; ASCII input. Keyword and regexp matchers iterate over Go maps, so with several matching rules of that type the "
